@@ -174,7 +174,8 @@ func (c *CopyCommand) copyOneFile(srcRelPath, destRelPath string, tow io.Writer)
 		return nil
 	}
 
-	if err := updateFileDataWithPointsList(destDB, srcPlDif, now); err != nil {
+	srcPlWrite := pointsListToWrite(srcTsList, srcPlDif, c.CopyNaN)
+	if err := updateFileDataWithPointsList(destDB, srcPlWrite, now); err != nil {
 		return err
 	}
 
@@ -186,6 +187,35 @@ func (c *CopyCommand) copyOneFile(srcRelPath, destRelPath string, tow io.Writer)
 		return err
 	}
 	return nil
+}
+
+// pointsListToWrite returns the points to write to each archive of the
+// destination so that it equals the source afterwards.
+//
+// Writing points to an archive re-aggregates the slots covering them in all
+// coarser archives, including slots which were equal to the source before and
+// therefore are not in srcPlDif. So once an archive has been written, all the
+// source points of every coarser archive are written after it, not only the
+// different ones.
+func pointsListToWrite(srcTsList TimeSeriesList, srcPlDif PointsList, includeNaN bool) PointsList {
+	pl := make(PointsList, len(srcPlDif))
+	written := false
+	for i := range srcPlDif {
+		if !written {
+			pl[i] = srcPlDif[i]
+			written = len(pl[i]) > 0
+			continue
+		}
+		if i >= len(srcTsList) {
+			continue
+		}
+		for _, p := range srcTsList[i].Points() {
+			if includeNaN || !p.Value.IsNaN() {
+				pl[i] = append(pl[i], p)
+			}
+		}
+	}
+	return pl
 }
 
 func openOrCreateCopyDestFile(filename string, srcHeader *whispertool.Header) (*whispertool.Whisper, error) {
